@@ -276,7 +276,10 @@ fn variant_struct_name(goenv: &GlobalGoEnv, enum_name: &str, variant_name: &str)
             }
         }
     }
-    if count > 1 {
+    // a variant spelled like an enum or a struct of the program would share that type's Go name
+    let named_like_a_type = goenv.enums().any(|(n, _)| n.0 == variant_name)
+        || goenv.structs().any(|(n, _)| n.0 == variant_name);
+    if count > 1 || named_like_a_type {
         format!("{}_{}", go_ident(enum_name), go_ident(variant_name))
     } else {
         go_ident(variant_name)
